@@ -920,6 +920,9 @@ func (ex *Exec) callSpecFunc(env *SpecEnv, sf *SpecFunc, args []*SExpr) Val {
 		ne.vars[p.Name] = v
 		flat = append(flat, v.L...)
 	}
+	if sf.Opaque && !sf.Uninter {
+		return ex.opaqueApp(ne, sf, flat)
+	}
 	if sf.Uninter {
 		rt := ex.resolveType(ne, sf.Ret)
 		ls := Layout(rt)
@@ -1129,4 +1132,48 @@ func patternParts(t *Term, bvs []*Term) []*Term {
 	}
 	walk(t)
 	return out
+}
+
+// opaqueApp applies an opaque spec function: an uninterpreted symbol whose definition is asserted once per
+// verification as a quantified axiom with the application as its pattern (heap-independent bodies only).
+func (ex *Exec) opaqueApp(ne *SpecEnv, sf *SpecFunc, flat []*Term) Val {
+	rt := ex.resolveType(ne, sf.Ret)
+	ls := Layout(rt)
+	if len(ls) != 1 {
+		sfail("opaque spec func %s must return a scalar", sf.Name)
+	}
+	name := "spec_" + sanitize(sf.PkgPath+"."+sf.Name)
+	if ex.opaqueDone == nil {
+		ex.opaqueDone = map[string]bool{}
+	}
+	if !ex.opaqueDone[name] {
+		ex.opaqueDone[name] = true
+		// definitional axiom
+		de := &SpecEnv{ex: ex, pkgPath: sf.PkgPath, vars: map[string]Val{}, st: &State{cells: map[*Cell]Val{}, heap: map[string]*Term{}, guard: True, wm: Sym("alloc0", SInt)}, depth: ne.depth + 1}
+		var bvs []*Term
+		for _, p := range sf.Params {
+			t := ex.resolveType(de, p.Type)
+			pl := Layout(t)
+			v := Val{T: t, L: make([]*Term, len(pl))}
+			for i, l := range pl {
+				ex.boundN++
+				b := Bound(fmt.Sprintf("%s_%d", sanitize(p.Name), ex.boundN), l.Sort)
+				v.L[i] = b
+				bvs = append(bvs, b)
+			}
+			de.vars[p.Name] = v
+		}
+		nHeaps := len(ex.heapSrt)
+		body := ex.coerce(ex.evalSpec(de, sf.Body), rt)
+		if len(de.st.heap) > 0 || len(ex.heapSrt) != nHeaps {
+			sfail("opaque spec func %s reads the heap; only heap-independent functions can be opaque", sf.Name)
+		}
+		app := UF(name, ls[0].Sort, bvs...)
+		if len(bvs) == 0 {
+			ex.assumeRaw(Eq(app, body.S()))
+		} else {
+			ex.assumeRaw(Forall(bvs, Eq(app, body.S()), []*Term{app}))
+		}
+	}
+	return Val{T: rt, L: []*Term{UF(name, ls[0].Sort, flat...)}}
 }
